@@ -21,7 +21,8 @@ import (
 // end: requests whose To host ranges over the universe, repeated.
 
 var routeHostUniverse = []string{"example.com", "a.example.com", "b.a.example.com", "aXexample.com", "example.org", "example.", "corp.test", "b.corp.test", "x.test", "test", "default", "*", "other.invalid", "a.example.comX", ".example.com",
-	"exampleXcom", "example", "examples.org", "examplecom", "corpXtest", "Xtest", "atest", "example.com.", "EXAMPLE.COM"}
+	"exampleXcom", "example", "examples.org", "examplecom", "corpXtest", "Xtest", "atest", "example.com.", "EXAMPLE.COM",
+	"10.9.8.7", "10.9.1.1", "10.8.8.7", "10.98.8.7", "10.9", "1.8.7"}
 
 func genRoutesPlan(seed uint64, tier string) *Plan {
 	g := newGen(seed)
